@@ -1,4 +1,5 @@
 import Cgm.Lemmas.AuditCmd
 import Cgm.Props.C17
 import Cgm.Props.C17b
+import Cgm.Props.C17c
 #audit_namespace Cg.C17
